@@ -4,6 +4,7 @@ package main
 
 import (
 	"fmt"
+	"os"
 	"go/types"
 	"strconv"
 	"strings"
@@ -47,14 +48,19 @@ func (in *Interp) fresh(kind, name string, w uint8, g *Term) *Term {
 
 func strArg(v Value) (string, bool) {
 	s, ok := v.(*StrVal)
-	if !ok || len(s.Alts) != 1 || s.Alts[0].Opq {
+	if !ok || !s.Code.IsConst() || strOpq[s.Code.val] {
 		return "", false
 	}
-	return s.Alts[0].S, true
+	return strTab[s.Code.val], true
 }
 
 func (in *Interp) addAssume(g, c *Term) {
-	in.assume = mkAnd(in.assume, mkImplies(g, c))
+	a := mkImplies(g, c)
+	if a.IsTrue() {
+		return
+	}
+	in.assume = mkAnd(in.assume, a)
+	in.assumeList = append(in.assumeList, a)
 }
 
 // recvReady returns (ready, value, okFlag) for a receive on channel object c.
@@ -237,7 +243,6 @@ func (fr *Frame) execSelect(x *ssa.Select) Value {
 		}
 	} else {
 		c := in.fresh("select", "sel", 64, g)
-		c.lo, c.hi = 0, uint64(n-1)
 		var cs []*Term
 		for i, r := range ready {
 			cs = append(cs, mkAnd(mkEq(c, mkConst(64, uint64(i))), r))
@@ -366,8 +371,10 @@ func registerIntrinsics(in *Interp) {
 		}
 		t := in.fresh("int", "int", 64, g)
 		if sext64(lo.val, 64) >= 0 {
+			// build the range constraint before declaring the interval (it would fold to true otherwise)
+			c := mkAnd(mkCmp(OpUle, lo, t), mkCmp(OpUle, t, hi))
+			in.addAssume(g, c)
 			t.lo, t.hi = lo.val, hi.val
-			in.addAssume(g, mkAnd(mkCmp(OpUle, lo, t), mkCmp(OpUle, t, hi)))
 		} else {
 			in.addAssume(g, mkAnd(mkCmp(OpSle, lo, t), mkCmp(OpSle, t, hi)))
 		}
@@ -382,6 +389,12 @@ func registerIntrinsics(in *Interp) {
 		if in.concrete {
 			if g.IsTrue() && c.IsFalse() {
 				panic(concreteStop{})
+			}
+			return nil
+		}
+		if in.forkMode {
+			if !in.decide(mkImplies(g, c)) {
+				panic(pathEnd{"assumption false"})
 			}
 			return nil
 		}
@@ -445,6 +458,11 @@ func registerIntrinsics(in *Interp) {
 		if c, ok := args[0].(*Term); ok && !c.IsConst() && !in.concrete {
 			in.splits = append(in.splits, mkAnd(g, c))
 		}
+		return nil
+	}
+	I["#vStats"] = func(fr *Frame, g *Term, args []Value, site ssa.Instruction, fn *ssa.Function) []Value {
+		name, _ := strArg(args[0])
+		fmt.Fprintf(os.Stderr, "STATS %s: %d term nodes, %d feasibility queries, %d aborts\n", name, TermNodes, in.feasQ, len(in.aborts))
 		return nil
 	}
 	I["#vParam"] = func(fr *Frame, g *Term, args []Value, site ssa.Instruction, fn *ssa.Function) []Value {
@@ -729,13 +747,13 @@ func registerIntrinsics(in *Interp) {
 		return []Value{in.newError(msg)}
 	}
 	I["fmt.Errorf"] = func(fr *Frame, g *Term, args []Value, site ssa.Instruction, fn *ssa.Function) []Value {
-		return []Value{in.newError(&StrVal{Alts: []StrAlt{{tTrue, "\x00opaque:Errorf", true}}})}
+		return []Value{in.newError(opaqueStr("Errorf"))}
 	}
-	opaqueStr := func(fr *Frame, g *Term, args []Value, site ssa.Instruction, fn *ssa.Function) []Value {
+	opaqueStrFn := func(fr *Frame, g *Term, args []Value, site ssa.Instruction, fn *ssa.Function) []Value {
 		return in.opaqueResults(fn.Signature, fnKey(fn))
 	}
 	for _, n := range []string{"fmt.Sprintf", "fmt.Sprint", "fmt.Sprintln", "runtime/debug.Stack", "encoding/hex.EncodeToString"} {
-		I[n] = opaqueStr
+		I[n] = opaqueStrFn
 	}
 	for _, n := range []string{"fmt.Println", "fmt.Printf", "fmt.Print", "fmt.Fprintf", "fmt.Fprintln", "fmt.Fprint",
 		"log.Printf", "log.Println", "log.Print", "(*log.Logger).Printf", "(*log.Logger).Println", "(*os.File).WriteString", "(*os.File).Write"} {
@@ -755,7 +773,7 @@ func registerIntrinsics(in *Interp) {
 		return []Value{&Opaque{"errors.Is"}}
 	}
 	I["errors.Join"] = func(fr *Frame, g *Term, args []Value, site ssa.Instruction, fn *ssa.Function) []Value {
-		return []Value{in.newError(&StrVal{Alts: []StrAlt{{tTrue, "\x00opaque:Join", true}}})}
+		return []Value{in.newError(opaqueStr("Join"))}
 	}
 	I["os.Getenv"] = func(fr *Frame, g *Term, args []Value, site ssa.Instruction, fn *ssa.Function) []Value {
 		return []Value{strConst("")}
@@ -775,7 +793,7 @@ func registerIntrinsics(in *Interp) {
 				return in.opaqueResults(fn.Signature, "string fn on opaque")
 			}
 			var alts []StrAlt
-			for _, p := range a.Alts {
+			for _, p := range a.Alts() {
 				if p.Opq {
 					alts = append(alts, p)
 					continue
@@ -793,8 +811,9 @@ func registerIntrinsics(in *Interp) {
 				return in.opaqueResults(fn.Signature, "string fn on opaque")
 			}
 			var alts []StrAlt
-			for _, p := range a.Alts {
-				for _, q := range b.Alts {
+			bAlts := b.Alts()
+			for _, p := range a.Alts() {
+				for _, q := range bAlts {
 					gg := mkAnd(p.G, q.G)
 					if gg.IsFalse() {
 						continue
@@ -817,8 +836,9 @@ func registerIntrinsics(in *Interp) {
 				return []Value{&Opaque{"string pred on opaque"}}
 			}
 			var gs []*Term
-			for _, p := range a.Alts {
-				for _, q := range b.Alts {
+			bAlts := b.Alts()
+			for _, p := range a.Alts() {
+				for _, q := range bAlts {
 					gg := mkAnd(p.G, q.G)
 					if gg.IsFalse() {
 						continue
@@ -843,8 +863,9 @@ func registerIntrinsics(in *Interp) {
 				return []Value{&Opaque{"string fn on opaque"}}
 			}
 			var r *Term = mkConst(64, 0)
-			for _, p := range a.Alts {
-				for _, q := range b.Alts {
+			bAlts := b.Alts()
+			for _, p := range a.Alts() {
+				for _, q := range bAlts {
 					gg := mkAnd(p.G, q.G)
 					if gg.IsFalse() {
 						continue
@@ -1015,6 +1036,147 @@ func registerIntrinsics(in *Interp) {
 	I["sort.SliceStable"] = sortVia("stable")
 	I["sort.Slice"] = sortVia("pdq")
 
+	// ---- package slices: loop-free summaries of the pure helpers
+	sliceArg := func(g *Term, v Value) (*SliceVal, bool) {
+		sl, ok := v.(*SliceVal)
+		if !ok {
+			in.unsupported(g, "slices helper on opaque slice")
+		}
+		return sl, ok
+	}
+	elemType := func(fn *ssa.Function) types.Type {
+		return fn.Signature.Params().At(0).Type().Underlying().(*types.Slice).Elem()
+	}
+	indexOf := func(fr *Frame, g *Term, args []Value, site ssa.Instruction, fn *ssa.Function) *Term {
+		sl, ok := sliceArg(g, args[0])
+		if !ok {
+			return mkConst(64, ^uint64(0))
+		}
+		et := elemType(fn)
+		res := mkConst(64, ^uint64(0))
+		for ai := len(sl.Alts) - 1; ai >= 0; ai-- {
+			a := sl.Alts[ai]
+			n := int(min(a.Len.hi, uint64(len(a.Arr.kids)-a.Off)))
+			r := mkConst(64, ^uint64(0))
+			for k := n - 1; k >= 0; k-- {
+				inb := mkCmp(OpUlt, mkConst(64, uint64(k)), a.Len)
+				if inb.IsFalse() {
+					continue
+				}
+				e := in.eq(in.load(a.Arr.kids[a.Off+k]), args[1])
+				r = mkIte(mkAnd(inb, e), mkConst(64, uint64(k)), r)
+			}
+			res = mkIte(a.G, r, res)
+			_ = et
+		}
+		return res
+	}
+	I["slices.Index"] = func(fr *Frame, g *Term, args []Value, site ssa.Instruction, fn *ssa.Function) []Value {
+		return []Value{indexOf(fr, g, args, site, fn)}
+	}
+	I["slices.Contains"] = func(fr *Frame, g *Term, args []Value, site ssa.Instruction, fn *ssa.Function) []Value {
+		return []Value{mkNot(mkEq(indexOf(fr, g, args, site, fn), mkConst(64, ^uint64(0))))}
+	}
+	I["slices.Clone"] = func(fr *Frame, g *Term, args []Value, site ssa.Instruction, fn *ssa.Function) []Value {
+		sl, ok := sliceArg(g, args[0])
+		if !ok {
+			return []Value{&SliceVal{}}
+		}
+		et := elemType(fn)
+		var alts []SliceAlt
+		for _, a := range sl.Alts {
+			// Clone preserves nil-ness; a non-nil source yields a fresh array with cap == len (tight)
+			n := int(min(a.Len.hi, uint64(len(a.Arr.kids)-a.Off)))
+			arr := in.newArray(et, n)
+			for k := 0; k < n; k++ {
+				in.storeInit(arr.kids[k], in.load(a.Arr.kids[a.Off+k]))
+			}
+			alts = append(alts, SliceAlt{a.G, arr, 0, a.Len, a.Len})
+		}
+		return []Value{&SliceVal{Alts: alts}}
+	}
+
+	I["slices.Delete"] = func(fr *Frame, g *Term, args []Value, site ssa.Instruction, fn *ssa.Function) []Value {
+		sl, ok := sliceArg(g, args[0])
+		if !ok {
+			return []Value{&SliceVal{}}
+		}
+		i, j := toIdx(args[1]), toIdx(args[2])
+		if i == nil || j == nil {
+			in.unsupported(g, "slices.Delete with opaque bounds")
+			return []Value{sl}
+		}
+		et := elemType(fn)
+		d := mkBin(OpSub, j, i)
+		okAll := mkAnd(mkNot(sl.nonNil()), mkEq(i, mkConst(64, 0)), mkEq(j, mkConst(64, 0)))
+		var alts []SliceAlt
+		for _, a := range sl.Alts {
+			okAll = mkOr(okAll, mkAnd(a.G, mkCmp(OpUle, i, j), mkCmp(OpUle, j, a.Len)))
+			n := int(min(a.Len.hi, uint64(len(a.Arr.kids)-a.Off)))
+			one := &SliceVal{Alts: []SliceAlt{{tTrue, a.Arr, a.Off, a.Len, a.Cap}}}
+			newLen := mkBin(OpSub, a.Len, d)
+			// compute all new cell values first (reads before writes)
+			vals := make([]Value, n)
+			for k := 0; k < n; k++ {
+				kc := mkConst(64, uint64(k))
+				src := mkBin(OpAdd, kc, d)
+				moved := in.sliceLoad(one, src, et)
+				keep := in.load(a.Arr.kids[a.Off+k])
+				v := in.merge(mkCmp(OpUlt, kc, i), keep, in.merge(mkCmp(OpUlt, src, a.Len), moved, in.zero(et)))
+				// cells at or beyond the old length are untouched
+				vals[k] = in.merge(mkCmp(OpUlt, kc, a.Len), v, keep)
+			}
+			ga := mkAnd(g, a.G)
+			for k := 0; k < n; k++ {
+				in.store(a.Arr.kids[a.Off+k], ga, vals[k])
+			}
+			alts = append(alts, SliceAlt{a.G, a.Arr, a.Off, newLen, a.Cap})
+		}
+		in.abort(mkAnd(g, mkNot(okAll)), "panic", in.curSite, "slice bounds out of range (slices.Delete)")
+		return []Value{&SliceVal{Alts: alts}}
+	}
+
+	I["maps.Clone"] = func(fr *Frame, g *Term, args []Value, site ssa.Instruction, fn *ssa.Function) []Value {
+		m, ok := args[0].(*MapVal)
+		if !ok {
+			in.unsupported(g, "maps.Clone of opaque")
+			return []Value{&MapVal{}}
+		}
+		out := make([]MapAlt, 0, len(m.Alts))
+		for _, a := range m.Alts {
+			c := in.newMap(a.M.KT, a.M.VT)
+			for _, e := range a.M.Entries {
+				ne := *e
+				c.Entries = append(c.Entries, &ne)
+			}
+			out = append(out, MapAlt{a.G, c})
+		}
+		return []Value{&MapVal{Alts: out}}
+	}
+	I["maps.Copy"] = func(fr *Frame, g *Term, args []Value, site ssa.Instruction, fn *ssa.Function) []Value {
+		dst, ok1 := args[0].(*MapVal)
+		src, ok2 := args[1].(*MapVal)
+		if !ok1 || !ok2 {
+			in.unsupported(g, "maps.Copy of opaque")
+			return nil
+		}
+		in.abort(mkAnd(g, mkNot(dst.nonNil()), src.nonNil()), "panic", in.curSite, "assignment to entry in nil map (maps.Copy)")
+		for _, sa := range src.Alts {
+			for _, e := range sa.M.Entries {
+				for _, da := range dst.Alts {
+					in.mapStore(da.M, mkAnd(g, sa.G, da.G, e.Present), e.Key, e.Val)
+				}
+			}
+		}
+		return nil
+	}
+
+	// the loop-free summaries of package slices are opt-in: by default the real stdlib code runs
+	if os.Getenv("VERIF_SLICES_INTRINSICS") == "" {
+		for _, n := range []string{"slices.Index", "slices.Contains", "slices.Clone", "slices.Delete"} {
+			delete(I, n)
+		}
+	}
 	registerContext(in)
 }
 
